@@ -467,6 +467,33 @@ func (x *b2i) lift(t *Term) *liftRes {
 			r = mr
 		}
 	case OBVOr:
+		// or with a constant of few set bits: x | 2^k = x + 2^k * (1 - bit_k(x))
+		{
+			a0, a1 := t.Args[0], t.Args[1]
+			if a0.IsConst() {
+				a0, a1 = a1, a0
+			}
+			if a1.IsConst() && !a0.IsConst() {
+				nb := 0
+				for k := 0; k < w; k++ {
+					if a1.Val.Bit(k) == 1 {
+						nb++
+					}
+				}
+				a := x.lift(a0)
+				if nb <= 8 && !(a.tz > 0 && a1.Val.Cmp(pow2(a.tz)) < 0) && !(a.hi.Cmp(pow2(int(a1.Val.TrailingZeroBits()))) < 0) {
+					e := a.e
+					for k := 0; k < w; k++ {
+						if a1.Val.Bit(k) == 1 {
+							bit := x.quo(a.e, pow2(k)).sub(x.quo(a.e, pow2(k+1)).scale(big.NewInt(2)))
+							e = e.add(linConst(pow2(k))).sub(bit.scale(pow2(k)))
+						}
+					}
+					r = &liftRes{e: e, lo: big.NewInt(0), hi: mask(w)}
+					break
+				}
+			}
+		}
 		a, b := x.lift(t.Args[0]), x.lift(t.Args[1])
 		switch {
 		case a.hi.Sign() == 0:
@@ -492,6 +519,14 @@ func (x *b2i) lift(t *Term) *liftRes {
 			x.aiv[at.ID] = [2]*big.Int{minB(a.lo, b.lo), maxB(a.hi, b.hi)}
 		}
 		r = &liftRes{e: e, lo: minB(a.lo, b.lo), hi: maxB(a.hi, b.hi), tz: minInt(a.tz, b.tz)}
+	case OUF:
+		// an uninterpreted bit-vector value: an opaque bounded integer (one atom per distinct application)
+		v := x.st.Sym(fmt.Sprintf("i!uf%d", t.ID), IntSort)
+		if _, ok := x.aiv[v.ID]; !ok {
+			x.aiv[v.ID] = [2]*big.Int{big.NewInt(0), mask(w)}
+			x.defs = append(x.defs, x.st.ILe(x.st.Inti(0), v), x.st.ILe(v, x.st.IntConst(mask(w))))
+		}
+		r = &liftRes{e: linAtom(v), lo: big.NewInt(0), hi: mask(w)}
 	case OBVLshr, OBVShl, OBVAshr:
 		return x.fail("shift by a symbolic amount")
 	case OBVXor:
@@ -615,19 +650,22 @@ func (x *b2i) liftBool(t *Term) *Term {
 	case OBVUle:
 		r = st.ILe(x.term(x.lift(t.Args[0]).e.sub(x.lift(t.Args[1]).e)), st.Inti(0))
 	case OBVSlt, OBVSle:
-		a, b := x.lift(t.Args[0]), x.lift(t.Args[1])
-		half := pow2(t.Args[0].S.W - 1)
-		if a.hi.Cmp(half) < 0 && b.hi.Cmp(half) < 0 {
-			d := x.term(a.e.sub(b.e))
-			if t.Op == OBVSlt {
-				r = st.ILt(d, st.Inti(0))
-			} else {
-				r = st.ILe(d, st.Inti(0))
+		// signed value = U - 2^w * signbit(U), signbit(U) = floor(U / 2^(w-1))
+		w := t.Args[0].S.W
+		sv := func(a *liftRes) *lin {
+			if a.hi.Cmp(pow2(w-1)) < 0 {
+				return a.e
 			}
-		} else {
-			x.fail("signed comparison of possibly negative operands")
-			r = t
+			return a.e.sub(x.quo(a.e, pow2(w-1)).scale(pow2(w)))
 		}
+		d := x.term(sv(x.lift(t.Args[0])).sub(sv(x.lift(t.Args[1]))))
+		if t.Op == OBVSlt {
+			r = st.ILt(d, st.Inti(0))
+		} else {
+			r = st.ILe(d, st.Inti(0))
+		}
+	case OUF:
+		r = t // an uninterpreted predicate: an opaque Boolean atom
 	case OILe:
 		r = st.ILe(x.term(x.liftInt(t.Args[0]).sub(x.liftInt(t.Args[1]))), st.Inti(0))
 	case OILt:
